@@ -309,6 +309,9 @@ def strip_kind(e):
 
 # ---- kind x mode matrix on the real implementation ------------------------------------------------------------------
 OPERANDS = [
+    # sources that begin with a line continuation; parenthesized links inside attribute chains (parentheses a pattern value cannot have)
+    ('expr', '\\\n  [a,\n b]'), ('expr', ' \\\n  a'), ('expr', '\\\n a + \\\n b'), ('expr', '\\\n\\\n (a, b)'), ('expr', '(a.b).c'), ('expr', '(a.b).c(x)'), ('expr', '{(a.b).c: 1}'), ('expr', '[(a.b).c, d]'),
+    ('expr', 'x.y | (a.b).c'), ('expr', '((a).b.c).d'), ('expr', '(a.b\n).c'),
     ('_type_params', '**P, T'), ('_type_params', '*Ts, T, **P'), ('_type_params', 'T: int = str, *Ts'), ('arguments', 'a=1'), ('arguments', 'a, b=2'), ('arguments', '*, k=3'),
     ('_arglikes', '*not a, *b or c, d'), ('expr_arglike', '*not a'), ('_arglikes', 'a, *b if c else d'), ('expr', '[*a, *(b or c)]'),
     # redundant parentheses inside operands of | chains (removed / kept by the conversion: what stands to their right moves)
@@ -478,6 +481,8 @@ def stage_matrix(ctx: Ctx, progs):
         import unicodedata
         nfkc = unicodedata.normalize('NFKC', src) != src     # identifiers the parser normalises (ﬁ -> fi): their length in the tree differs from their length in the source
         report = (lambda sig, what, rec_: ctx.violation(sig + '|nfkc-identifier', what, rec_)) if nfkc else ctx.violation
+        if src.lstrip(' ').startswith('\\\n'):
+            report = lambda sig, what, rec_: ctx.violation(sig + '|leading-continuation', what, rec_)       # the source begins with a line continuation
         # operands with a starred element also under pars_arglike=None (defer to `pars`, whose default still asks for valid results)
         optsets = [{}] + ([{'pars_arglike': None}] if '*' in src else [])
         for mode, optset in [(m_, o_) for o_ in optsets for m_ in MODES]:
